@@ -41,7 +41,7 @@ func init() {
 				return 150_000
 			}, Run: c15Gradient,
 				Min: map[string]int64{"gradients": 20000, "probes": 1000000, "exact_integer_offsets": 2000, "exact_odd_integer_reflect": 100, "exact_stop_offsets": 1000, "negative_offsets": 50000, "offsets_above_1": 50000, "offsets_inside_0_1": 200000,
-					"spread_none": 10000, "spread_pad": 10000, "spread_reflect": 10000, "spread_repeat": 10000, "radial": 100000, "linear": 100000, "transparent_outside": 1000, "dyadic_gradients": 5000, "far_offset_gradients": 3000, "gradients_after_another_gradient": 20000}},
+					"spread_none": 10000, "spread_pad": 10000, "spread_reflect": 10000, "spread_repeat": 10000, "radial": 100000, "linear": 100000, "transparent_outside": 1000, "dyadic_gradients": 5000, "far_offset_gradients": 3000, "gradients_after_another_gradient": 20000, "same_gradient_after_retargeting": 20000}},
 			{Name: "pixels", N: func(t string) uint64 {
 				if t == "thorough" {
 					return 1_000_000
@@ -312,21 +312,40 @@ func c15Gradient(c *run.Ctx, idx uint64) {
 			g = c15Like(r, q)
 			c.Count("gradients_after_another_gradient", 1)
 		}
-		if !c15DrawAndJudge(c, &z, rz, g, r) {
+		if !c15DrawAndJudge(c, &z, rz, g, r, true) {
 			return
+		}
+		if r.Chance(1, 3) {
+			// The Renderer is pointed at a rectangle of another size and the same
+			// gradient (no register is written in between) fills another path: the
+			// pixel-to-gradient map must follow the new rectangle.
+			g2 := *g
+			if g.dyadic {
+				g2.rect = image.Rectangle{Min: g.rect.Min, Max: g.rect.Min.Add(g.rect.Size().Mul(2))}
+			} else {
+				g2.rect = image.Rect(0, 0, r.Range(1, 300), r.Range(1, 300)).Add(image.Pt(r.Intn(20), r.Intn(20)))
+			}
+			c.Count("same_gradient_after_retargeting", 1)
+			z.SetRasterizer(rz, g2.rect)
+			if !c15DrawAndJudge(c, &z, rz, &g2, r, false) {
+				return
+			}
+			z.SetRasterizer(rz, q.rect)
 		}
 	}
 }
 
 // c15DrawAndJudge sets gradient q up on the Renderer, fills a path with it
 // and judges the probes of the paint handed to Draw.
-func c15DrawAndJudge(c *run.Ctx, zp *render.Renderer, rz *rec.Raster, q *c15Grad, r *run.Rng) bool {
+func c15DrawAndJudge(c *run.Ctx, zp *render.Renderer, rz *rec.Raster, q *c15Grad, r *run.Rng, setup bool) bool {
 	w, h := q.rect.Dx(), q.rect.Dy()
 	pts := c15Probes(q, r)
 	rz.ResetLog()
 	rz.Probes = pts
 	ok := c.Guard("gradient", func() interface{} { return q.desc() }, func() {
-		q.setup(zp, r)
+		if setup {
+			q.setup(zp, r)
+		}
 		zp.StartPath(0, q.vb.MinX, q.vb.MinY)
 		zp.AbsLineTo(q.vb.MaxX, q.vb.MinY)
 		zp.AbsLineTo(q.vb.MaxX, q.vb.MaxY)
